@@ -3,6 +3,7 @@ save, delete, walk (which pages are replaced by which), read (the comment constr
 (the strict page reader) -/
 import MutagenModel.Model.Container.OggInject
 import MutagenModel.Model.Container.OggInjectM
+import MutagenModel.Model.Container.OggInjectLoadM
 import Driver.Util
 import Driver.FlacC
 import Driver.Ogg
@@ -86,6 +87,19 @@ def oggFaultOp (a : Args) : Option String :=
   | "deletem", some c =>
     let f := a.bytes "data"
     some (showResult (deleteEntry (a.nat "B" 1048576) c f (a.bytes "vendor") (a.bytes "paddata") (envOf a) { data := f }))
+  | "loadm", some c =>
+    -- `OggX(fileobj)`: verify_fileobj's read(0), the info constructor, the tags constructor, `_post_tags`
+    let f := a.bytes "data"
+    some (showResult (loadM c (envOf a) { data := f, pos := a.nat "pos" 0 }) (val := fun (l : Loaded) =>
+      let last := match l.last with | none => "none" | some p => s!"{p.position}@{p.sequence}"
+      s!"serial={l.idPage.serial} comment={hexField l.comment} padding={l.padding} paddata={hexField l.padData} last={last}"))
+  | "loadpure", some c =>
+    let f := a.bytes "data"
+    some (match loadPure c f with
+      | .error e => s!"err {e.name}"
+      | .ok l =>
+        let last := match l.last with | none => "none" | some p => s!"{p.position}@{p.sequence}"
+        s!"ok serial={l.idPage.serial} comment={hexField l.comment} padding={l.padding} paddata={hexField l.padData} last={last}")
   | _, _ => none
 
 def ogginjectOp (a : Args) : String :=
